@@ -138,6 +138,7 @@ func TestC09(t *testing.T) {
 	rep.RuleAdd("Also: frames forwarded through the node between the originated ones, a third of them carrying the node's own system and component id and arbitrary sequence numbers; link generations; twin dialects. Every other node uses a dialect whose version is 0.")
 	rep.RuleAdd("Rounds 12-15: forwarded frames between the originated ones, nodes on dialect version 0, five lives of one node value, writers initialised again on their link, transports that deliver a frame and then report a network error.")
 	rep.RuleAdd("Rounds 16-17: v1 output of a struct that declares an extension before a regular field.")
+	rep.RuleAdd("Round 18: version values that are neither 1 nor 2 (3, 127, 255), where a writer accepts them: every emitted frame carries the encoding of its own version.")
 	rep.Assume("a sequence number consumed by a refused write is tolerated (the statement speaks of accepted writes); counted in seq_numbers_consumed_by_refused_writes")
 	seed := vh.Seed()
 	r := vh.Sub(seed, "c09")
